@@ -87,11 +87,13 @@ struct C20 : Property
 		p.ops.push_back(d);
 		Op t;
 		t.kind = "io";
-		static const int serflags[] = {0, 1, 2, 3, 2 | 8, 16};
-		int64_t arg1 = read_side ? (deep_doc ? (r.chance(1, 4) ? -1 : (int64_t)r.range(30, 64)) : (r.chance(1, 2) ? -1 : (int64_t)r.range(1, 8))) : serflags[r.below(6)];
+		static const int serflags[] = {0, 1, 2, 3, 2 | 8, 16, 8, 1 | 8, 4, 32, 1 | 2 | 4 | 8 | 16, 63};
+		int64_t arg1 = read_side ? (deep_doc ? (r.chance(1, 4) ? -1 : (int64_t)r.range(30, 64)) : (r.chance(1, 2) ? -1 : (int64_t)r.range(1, 8))) : serflags[r.below(12)];
 		if (deep_doc && api == 3 && r.chance(1, 2))
 			api = 4; // the depth argument only exists on json_object_from_fd_ex
-		t.a = {api, arg1, (int64_t)r.below(4), (int64_t)r.below(100000)};
+		// errno is a hidden input of the calling thread: whatever an earlier, unrelated call left there must not matter
+		static const int stale[] = {0, 0, EINTR, EAGAIN, ENOMEM, EIO, EBADF};
+		t.a = {api, arg1, (int64_t)r.below(4), (int64_t)r.below(100000), stale[r.below(7)]};
 		p.ops.push_back(t);
 		return p;
 	}
@@ -184,7 +186,9 @@ struct C20 : Property
 			// expected bytes from a separate copy, so that the tree under test still has to allocate its own print buffer
 			struct json_object *cp = nullptr;
 			LIB(json_object_deep_copy(obj, &cp, nullptr));
-			std::string expected = ser(cp ? cp : obj, flags);
+			// json_util.h defines the written bytes as what json_object_to_json_string_ext() returns for the same flags
+			const char *exp_c = LIB(json_object_to_json_string_ext(cp ? cp : obj, flags));
+			std::string expected = exp_c ? exp_c : "<NULL-RESULT>";
 			if (cp)
 				LIBV(json_object_put(cp));
 			std::string before = text;
@@ -194,6 +198,7 @@ struct C20 : Property
 			e.ran = true;
 			arm_faults(armed, ctx);
 			int rc;
+			errno = (int)op.arg(4, 0);
 			if (api == 0)
 				rc = LIB(json_object_to_fd(fd, obj, flags));
 			else if (api == 1)
@@ -276,6 +281,7 @@ struct C20 : Property
 			e.ran = true;
 			arm_faults(armed, ctx);
 			struct json_object *o;
+			errno = (int)op.arg(4, 0);
 			if (api == 3)
 				o = LIB(json_object_from_fd(fd));
 			else if (api == 4)
